@@ -12,7 +12,7 @@ def _fresh_index():
 
 def ch_conditions(tier):
     quick = tier == "quick"
-    tmo = 120 if quick else 1200
+    tmo = 120 if quick else 600
     ids = 5 if quick else 6
     conds = []
 
